@@ -2805,7 +2805,29 @@ impl Value {
                 }
             },
             1 => match self {
-                Value::Char(arr) => format!("{:?}", arr.data.iter().collect::<String>()),
+                Value::Char(arr) => {
+                    let mut s = '"'.to_string();
+                    let mut after_escape = false;
+                    for &c in &arr.data {
+                        let escaped = c != '\'' && c.escape_debug().len() > 1;
+                        // A character that would form a grapheme with the end
+                        // of an escape sequence would make the sequence unreadable
+                        let joins = after_escape && {
+                            let pair: String = s.chars().last().into_iter().chain([c]).collect();
+                            pair.graphemes(true).nth(1).is_none()
+                        };
+                        if joins {
+                            s.push_str(&format!("\\u{{{:x}}}", c as u32));
+                        } else if escaped {
+                            s.extend(c.escape_debug());
+                        } else {
+                            s.push(c);
+                        }
+                        after_escape = escaped || joins;
+                    }
+                    s.push('"');
+                    s
+                }
                 Value::Box(arr) => {
                     let mut s = '{'.to_string();
                     for (i, v) in arr.data.iter().enumerate() {
